@@ -23,7 +23,12 @@ Malformed(c) == c.imp.kind = "none" /\ (c.imp.groups # <<>> \/ c.imp.extras # <<
 Requested(c) == c.imp.kind # "none" \/ Malformed(c)
 ItemsOf(c) == (IF c.imp.kind \in {"user", "anon"} THEN {"users"} ELSE IF c.imp.kind = "sa" THEN {"serviceaccounts"} ELSE {})
               \cup (IF c.imp.groups # <<>> THEN {"groups"} ELSE {}) \cup (IF c.imp.extras # <<>> THEN {"userextras"} ELSE {})
-AllAllowed(c) == \A it \in ItemsOf(c) : c.authz[it] = "allow"
+\* the authorizer is asked once per requested ITEM (the user, every group, every extra key/value pair); besides the answer per
+\* item class (authz) a case may single out ONE item that is not allowed (denyItem: [res, name, sub, ans], res = "" for none)
+NoItem == [res |-> "", name |-> "", sub |-> "", ans |-> "allow"]
+ItemsOfImp(imp) == {[res |-> "groups", name |-> g, sub |-> ""] : g \in Rng(imp.groups)}
+                   \cup {[res |-> "userextras", name |-> e[2], sub |-> e[1]] : e \in Rng(imp.extras)}
+AllAllowed(c) == (\A it \in ItemsOf(c) : c.authz[it] = "allow") /\ c.denyItem.res = ""
 
 \* the groups of the impersonated identity (Kubernetes semantics)
 ImpGroups(c) ==
